@@ -3,6 +3,7 @@
 # touches (by package dependency) and prints which checks report it. Alarms by checks of properties the change was
 # not written to break are then judged: a legitimately broken second property, or an over-strict oracle.
 HERE="$(cd "$(dirname "$0")/.." && pwd)"; cd "$HERE"
+ONLY=${CROSS_ONLY:-}
 P=("$@"); [ ${#P[@]} = 0 ] && P=(seeded/C*/patch.diff mutants/C*.patch)
 for p in "${P[@]}"; do
   name=$(echo $p | sed 's#/patch.diff##; s#.*/##; s#\.patch$##'); own=${name:0:3}
@@ -20,11 +21,13 @@ for p in "${P[@]}"; do
     esac
   done
   sel=$(echo $sel | tr ' ' '\n' | sort -u | tr '\n' ' ')
+  # CROSS_ONLY="C06 C15 ..." restricts the checks that are run
+  if [ -n "$ONLY" ]; then sel=$(for c in $sel; do case " $ONLY " in *" $c "*) echo -n "$c ";; esac; done); fi
   hits=""
   for c in $sel; do
     tools/mutant.sh $p $c > /tmp/cross.$$ 2>&1; rc=$?
-    if [ $rc = 1 ]; then hits="$hits $c"; elif [ $rc != 0 ]; then hits="$hits $c(rc=$rc)"; fi
+    if [ $rc = 1 ]; then hits="$hits $c"; [ $c != $own ] && detail="$detail\n      $c: $(grep -m1 'what:' /tmp/cross.$$ | cut -c1-400)"; elif [ $rc != 0 ]; then hits="$hits $c(rc=$rc)"; fi
   done
-  echo "$name: own=$own checked:[$sel] reported-by:$hits"
+  echo -e "$name: own=$own checked:[$sel] reported-by:$hits$detail"; detail=""
 done
 rm -f /tmp/cross.$$
